@@ -35,16 +35,21 @@ Consistent(e, pred, r) ==
     [] pred = "err:codec"       -> r[1] = "err:Compression"
     [] pred = "err:crc"         -> r[1] = "err:ChecksumMismatch"
     [] pred = "panic"           -> r[1] = "panic"
-    [] pred = "zerofill"        -> r[1] = "ok" /\ r[2] = e.len
+    \* today a sector that fails to decode is replaced by zeros (Ok, right length, wrong bytes); once the reader
+    \* propagates the sector's error instead, the same named deviation shows as that error
+    [] pred = "zerofill"        -> \/ r[1] = "ok" /\ r[2] = e.len
+                                   \/ r[1] \in {"err:CompressionBomb", "err:Compression"}
     [] OTHER                    -> FALSE
 CodecDevName(m) == IF DevPkwareAsciiMode(m) THEN "pkware-ascii-mode"
                    ELSE IF DevMultiBzip2StrictSize(m) THEN "multi-bzip2-size" ELSE "other"
-DevName(b, pred) ==
+\* errs: some read returned an error (as opposed to Ok with wrong bytes)
+DevName(b, pred, errs) ==
   CASE pred \in {"table-prepended", "garbage"} ->
          (IF DevSectoredNoCompressFlag(b) THEN "sectored-no-compress-flag" ELSE "layout-disagreement")
     [] pred = "err:limit" -> "limit-rejects-own-output"
-    [] pred = "zerofill"  -> (IF DevLimitRejectsOwnOutput(b) THEN "limit-sector-zero-filled"
-                              ELSE "codec-sector-zero-filled:" \o CodecDevName(b.method))
+    [] pred = "zerofill"  -> (IF DevLimitRejectsOwnOutput(b)
+                              THEN (IF errs THEN "limit-rejects-own-output" ELSE "limit-sector-zero-filled")
+                              ELSE (IF errs THEN "codec:" ELSE "codec-sector-zero-filled:") \o CodecDevName(b.method))
     [] pred \in {"panic", "err:codec"} -> "codec:" \o CodecDevName(b.method)
     [] pred = "err:crc" -> "lossy-sector-crc"
     [] OTHER -> "none"
@@ -55,7 +60,7 @@ FileVerdict(e) ==
   ELSE LET b == ObsBlock(e)
            pred == ReadBlock(b, <<>>)
        IN IF pred # "exact" /\ \A j \in 1..4 : (Exact(e, e.reads[j]) \/ Consistent(e, pred, e.reads[j]))
-          THEN "dev:" \o DevName(b, pred)
+          THEN "dev:" \o DevName(b, pred, \E j \in 1..4 : e.reads[j][1] \notin {"ok", "panic", "hang"})
           ELSE "unexplained"
 FileDrift(e) ==
   IF ~e.found THEN "none"
@@ -88,7 +93,10 @@ Verdict(e) == CASE e.ev = "Reset"  -> (IF e.S = SectorSize THEN "ok" ELSE "shard
                 [] e.ev = "Absent" -> AbsentVerdict(e)
                 [] e.ev = "List"   -> ListVerdict(e)
                 [] e.ev = "Hang"   -> "hang:" \o e.call          \* a library call did not return (per-call watchdog)
-                [] e.ev = "Abort"  -> "abort"                    \* the process running the case died (abort / OOM / signal)
+                \* the process running the case died (abort / OOM / signal).  Named deviation DevTableCompression
+                \* (misaligned HET/BET parse) explains a death inside Archive::open of a V3/V4 archive with compressed tables
+                [] e.ev = "Abort"  -> (IF e.after = "Build" /\ e.tablecomp /\ e.ver >= 3
+                                       THEN "dev:table-compression-misaligned" ELSE "abort")
                 [] OTHER           -> "unknown-event"
 
 TNone(n) == {1}
